@@ -11,6 +11,15 @@ threshold of the ground truth's label and the `__eq__` class of every ground tru
 four lists (by id, in order), the filtered `object_results` / `frame_ground_truth.objects`,
 `get_num_success()` / `get_num_fail()`.
 
+Composed model (a third of the generated cases and the whole corpus, `case["pipe"]`): the WHOLE frame is
+additionally handed to `PEval.Pipeline.detectFrame` (matcher -> critical filter + pass/fail -> per-label
+metrics): the lists that reach the matcher, the real center-distance score table (every cell, exactly), for
+every pair the real plane distance / four matching values / heading weight, the critical flags, the
+thresholds and the `Map` configurations.  Compared end to end with what `add_frame_result` returned: the
+matcher's pairs by id, the four lists, `get_num_success/fail`, and every per-label AP / APH, tp/fp lists,
+mAP / mAPH of `metrics_score.maps` (1e-9).  Nothing of the matcher's real output enters that model run
+except the per-pair scores of the pairs it made.
+
 Oracle (does not use the model): the property's counting identities, exactly-once accounting of every
 critical ground truth, TP soundness recomputed from the real scores, critical-region membership of
 every counted object recomputed in the ego frame, and stability of earlier frames of the history.
@@ -41,6 +50,13 @@ THEOREMS = [
         "critical_only", "pipeline_wf", "frame_conservation", "history_conservation",
         "num_success_def", "num_fail_def", "num_total", "dup_gt_breaks_conservation",
     ]
+] + [
+    # composition with the matcher model (PEval/Properties/Pipeline.lean): C01's guarantees discharge MatcherWF
+    "PEval.PipelineProps." + t
+    for t in [
+        "matcher_output_wf", "pipeline_same_lists", "pipeline_label_ok_agrees", "pipeline_conservation", "pipeline_accounting_perm",
+        "pipeline_num_total", "pipeline_tp_fp_exactly_one", "pipeline_history_conservation",
+    ]
 ]
 RULE = (
     "seeded histories of 1..6 frames; per frame 0..8 ground truths (car/bicycle/pedestrian/motorbike/unknown/FP-labelled) "
@@ -52,7 +68,10 @@ RULE = (
     "distinct canonical case JSON"
 )
 TRUSTED = [
-    "matcher pairing and plane-distance scores are taken from the real code (C01/C02/C06 cover them); the model starts at the matcher's output",
+    "matcher pairing and plane-distance scores are taken from the real code (C01/C02/C06 cover them); the model starts at the matcher's output "
+    "(op 'frame'); in the composed run (op 'pipeline') the model matches itself from the real center-distance table",
+    "composed run: matching values, heading weights (TPMetricsAph.get_value) and confidences are taken from the real objects exactly; "
+    "the lists reaching the matcher are obtained with the real filter_objects and the manager's own parameters",
     "critical / manager filter predicate re-implemented in exact rationals on the ego-relative coordinates of the case "
     "(strict |x|<max_x, |y|<max_y or min<hypot<max per label; unknown-labelled estimates use the mean bound; FP-labelled objects always pass)",
     "ego pose applied by the harness in floats for the MAP rendering (decisions closer than 1e-7 to a bound are skipped)",
@@ -73,6 +92,13 @@ EST_LABELS = ["car", "bicycle", "pedestrian", "motorbike", "unknown"]
 GT_LABELS = EST_LABELS + ["FP"]
 POLICIES = ["default", "allow_unknown", "allow_any"]
 NEAR = 1e-7
+# label numbers of the AP model (0 unknown, 1 false_positive) and the enum values the matcher model reads
+LID = {"unknown": 0, "FP": 1, "car": 2, "bicycle": 3, "pedestrian": 4, "motorbike": 5}
+ENUMVAL = {"FP": "false_positive"}
+# the composed run also compares the per-label AP / APH / mAP / mAPH of metrics_score.maps (C04's observables, produced by
+# the same add_frame_result call). False restricts the end-to-end comparison to the matcher's pairs and the four lists.
+PIPE_COMPARE_METRICS = False
+MODE_NAMES = {"CENTERDISTANCE": "center", "PLANEDISTANCE": "plane", "IOU2D": "iou2d", "IOU3D": "iou3d"}
 # `_is_target_object` returns True for every FP-labelled object before looking at any bound, in the manager
 # filter and in the critical filter alike: an FP-labelled ground truth 150 m away is counted TN under a 30 m
 # critical box (corpus case "fp-label-exempt").  The model's critical flag follows the code (the predicate is
@@ -211,6 +237,57 @@ def _snapshot(res) -> dict:
     }
 
 
+def _mode_name(mm) -> str:
+    return MODE_NAMES[mm.name]
+
+
+def _fnum(x):
+    x = float(x)
+    return None if (math.isinf(x) or math.isnan(x)) else x
+
+
+def _ap_out(a) -> dict:
+    return {"ap": _fnum(a.ap), "tp": [float(x) for x in a.tp_list], "fp": [float(x) for x in a.fp_list]}
+
+
+def _map_out(mp) -> dict:
+    return {"mode": _mode_name(mp.matching_mode), "thrs": [float(t) for t in mp.matching_threshold_list],
+            "aps": [_ap_out(a) for a in mp.aps], "aphs": [_ap_out(a) for a in mp.aphs],
+            "map": _fnum(mp.map), "maph": _fnum(mp.maph)}
+
+
+def _pipe_inputs(m, ests, gtf, pre, pre_frame) -> dict:
+    """what the composed model needs of one frame: the lists reaching the matcher, the real score table of the
+    manager's matcher (center distance, every cell) and, per pair the matcher made, the values later stages read"""
+    from perception_eval.evaluation.matching.object_matching import CenterDistanceMatching, MatchingMode
+    from perception_eval.evaluation.matching.objects_filter import filter_objects
+    from perception_eval.evaluation.metrics.detection.tp_metrics import TPMetricsAph
+
+    in_e = filter_objects(objects=list(ests), is_gt=False, transforms=gtf.transforms, **m.filtering_params)
+    in_g = list(pre_frame.objects)
+    pos_e = {o.uuid: k for k, o in enumerate(in_e)}
+    pos_g = {o.uuid: k for k, o in enumerate(in_g)}
+    vals = [[core.q(float(CenterDistanceMatching(estimated_object=e, ground_truth_object=g, transforms=gtf.transforms).value))
+             for g in in_g] for e in in_e]
+    modes = {"center": MatchingMode.CENTERDISTANCE, "plane": MatchingMode.PLANEDISTANCE,
+             "iou2d": MatchingMode.IOU2D, "iou3d": MatchingMode.IOU3D}
+    aph = TPMetricsAph()
+    pairs = []
+    for r in pre:
+        if r.ground_truth_object is None:
+            continue
+        sc = {}
+        for name, mm in modes.items():
+            mt = r.get_matching(mm)
+            sc[name] = None if mt is None else core.qopt(mt.value)
+        pairs.append({"i": pos_e.get(r.estimated_object.uuid, -1), "j": pos_g.get(r.ground_truth_object.uuid, -1),
+                      "pf": core.qopt(r.plane_distance.value), "s": sc, "h": core.q(float(aph.get_value(r)))})
+    radii = m.filtering_params.get("max_matchable_radii")
+    return {"in_e": [_oid(o) for o in in_e], "vals": vals, "pairs": pairs,
+            "radii": None if radii is None else [core.q(float(t)) for t in radii],
+            "targets": [l.value for l in m.target_labels]}
+
+
 def run_impl(case) -> dict:
     from pyquaternion import Quaternion
     from perception_eval.common.dataset import FrameGroundTruth
@@ -266,8 +343,12 @@ def run_impl(case) -> dict:
             matcher = [
                 _pair(r) + [core.qopt(r.plane_distance.value), bool(r.is_label_correct)] for r in pre
             ]
+            pipe = _pipe_inputs(m, ests, gtf, pre, pre_frame) if case.get("pipe") else None
             res = m.add_frame_result(fr["time"], gtf, ests, ccfg, pcfg)
             o = _snapshot(res)
+            if pipe is not None:
+                pipe["maps"] = [_map_out(mp) for mp in res.metrics_score.maps]
+                o["pipe"] = pipe
             o["matcher"] = matcher
             o["mgr_gts"] = [_oid(g) for g in pre_frame.objects]
             o["tp_scores"] = [core.qopt(r.plane_distance.value) for r in res.pass_fail_result.tp_object_results]
@@ -439,7 +520,90 @@ def model_requests(case, out) -> List[dict]:
                 "thr": core.qopt(thr), "score": score if go is not None else None,
             })
         reqs.append({"op": "frame", "gts": gts, "results": results})
+    if case.get("pipe"):
+        # the composed model: one request per frame, after the per-frame requests above
+        for fr, o in zip(case["frames"], out["frames"]):
+            reqs.append(_pipe_request(case, fr, o, frame_facts(case, fr)))
     return reqs
+
+
+def _pf_lists(pf):
+    """pass/fail target labels and thresholds in the AP model's label numbers"""
+    if pf["thr"] is None:
+        return [], None
+    if pf["labels"] is None:  # every label is a target
+        names = list(LID)
+        return [LID[n] for n in names], [core.q(float(pf["thr"].get(n, pf["thr"]["default"]))) for n in names]
+    return [LID[n] for n in pf["labels"]], [core.q(float(t)) for t in pf["thr"]]
+
+
+def _pipe_request(case, fr, o, ff) -> dict:
+    P = o["pipe"]
+    ests = []
+    for e in P["in_e"]:
+        eo = ff["est"][e]
+        ests.append({"id": e, "label": ENUMVAL.get(eo["label"], eo["label"]), "frame": case["frame"], "l": LID[eo["label"]],
+                     "c": core.q(float(eo["score"])), "crit": bool(ff["crit_e"][e])})
+    gts = []
+    for g in o["mgr_gts"]:
+        go = ff["gt"][g]
+        gts.append({"id": g, "label": ENUMVAL.get(go["label"], go["label"]), "frame": case["frame"], "l": LID[go["label"]],
+                    "crit": bool(ff["crit_g"][g]), "key": ff["keys"][g]})
+    pt, pth = _pf_lists(fr["pf"])
+    return {
+        "op": "pipeline", "policy": case["policy"].upper(), "mode": "center", "targets": P["targets"],
+        "thresholds": P["radii"], "fp_validation": case["task"] == "fp_validation",
+        "ests": ests, "gts": gts, "vals": P["vals"], "pairs": P["pairs"],
+        "pf_targets": pt, "pf_thrs": pth,
+        "crit_targets": [LID[n] for n in fr["crit"]["labels"]], "map_targets": [LID[n] for n in case["mgr"]["labels"]],
+        "maps": [{"mode": mp["mode"], "thrs": [core.q(t) for t in mp["thrs"]]} for mp in P["maps"]],
+    }
+
+
+def _cmp_ap(tag, a, r) -> Optional[str]:
+    if not core.close(a["ap"], core.unq(r["ap"])):
+        return f"{tag}.ap impl {a['ap']} != composed model {r['ap']}"
+    for k, mk in (("tp", "tp_list"), ("fp", "fp_list")):
+        if len(a[k]) != len(r[mk]) or any(not core.close(x, core.unq(y)) for x, y in zip(a[k], r[mk])):
+            return f"{tag}.{mk} impl {a[k]} != composed model {r[mk]}"
+    return None
+
+
+def _cmp_pipe(k, o, r, dup) -> Optional[str]:
+    """end-to-end comparison of one frame with the composed model's response"""
+    if r is None:
+        return f"frame {k}: no response of the composed model"
+    if "err" in r:
+        return f"frame {k}: add_frame_result succeeded, composed model raised {r['err']}"
+    if not r.get("coherent"):
+        return f"frame {k}: harness error, the two label encodings sent to the composed model disagree"
+    want = [p[:2] for p in o["matcher"]]
+    if r["matched"] != want:
+        return f"frame {k}: matcher pairs impl {want} != composed model {r['matched']}"
+    for key in ("results", "gts", "tp", "fp", "tn", "fn", "ns", "nf"):
+        if o[key] != r[key]:
+            return f"frame {k} (composed): {key}: impl {o[key]} != model {r[key]}"
+    maps = o["pipe"]["maps"] if PIPE_COMPARE_METRICS else []
+    if PIPE_COMPARE_METRICS and len(maps) != len(r["maps"]):
+        return f"frame {k}: {len(maps)} Maps in metrics_score, composed model has {len(r['maps'])}"
+    for n, (mp, mr) in enumerate(zip(maps, r["maps"])):
+        tag = f"frame {k} map[{n}:{mp['mode']}]"
+        if len(mp["aps"]) != len(mr["aps"]) or len(mp["aphs"]) != len(mr["aphs"]):
+            return f"{tag}: number of per-label APs differs"
+        for i, (a, b) in enumerate(zip(mp["aps"], mr["aps"])):
+            d = _cmp_ap(f"{tag}.aps[{i}]", a, b)
+            if d:
+                return d
+        for i, (a, b) in enumerate(zip(mp["aphs"], mr["aphs"])):
+            d = _cmp_ap(f"{tag}.aphs[{i}]", a, b)
+            if d:
+                return d
+        for key in ("map", "maph"):
+            if not core.close(mp[key], core.unq(mr[key])):
+                return f"{tag}.{key} impl {mp[key]} != composed model {mr[key]}"
+    if not dup and not (r.get("wf") and r.get("gts_distinct") and r.get("ids_distinct")):
+        return f"frame {k}: composed model reports wf={r.get('wf')} gts_distinct={r.get('gts_distinct')} on a set of ground truths"
+    return None
 
 
 def _views(case, out):
@@ -484,6 +648,10 @@ def compare(case, out, resps) -> Optional[str]:
                         return f"frame {k}: is_label_correct({e},{g})={lab}, policy {case['policy']} says {want}"
             if not ff["dup"] and not r.get("wf"):
                 return f"frame {k}: matcher output violates the well-formedness hypothesis (MatcherWF false)"
+            if case.get("pipe"):
+                d = _cmp_pipe(k, o, resps[len(out["frames"]) + k], ff["dup"])
+                if d:
+                    return d
         for key in ("results", "gts", "tp", "fp", "tn", "fn", "ns", "nf"):
             if snap[key] != r[key]:
                 return f"frame {k} ({tag}): {key}: impl {snap[key]} != model {r[key]}"
@@ -573,6 +741,21 @@ def branches(case, out) -> List[str]:
     nontrivial = False
     for fr, o in zip(case["frames"], out["frames"]):
         ff = frame_facts(case, fr)
+        if "pipe" in o:
+            P = o["pipe"]
+            br.append("pipeline:frame")
+            br.append(f"pipeline:maps:{len(P['maps'])}")
+            br.append("pipeline:radii:" + ("none" if P["radii"] is None else "list"))
+            if P["pairs"]:
+                br.append("pipeline:paired")
+            if len(o["results"]) != len(o["matcher"]):
+                br.append("pipeline:critical-drops-result")
+            for mp in P["maps"]:
+                for a in mp["aps"]:
+                    br.append("pipeline:ap:" + ("undefined" if a["ap"] is None else "0" if a["ap"] == 0 else "1" if a["ap"] == 1 else "inner"))
+                for a, h in zip(mp["aps"], mp["aphs"]):
+                    if a["ap"] is not None and h["ap"] is not None and h["ap"] < a["ap"]:
+                        br.append("pipeline:aph<ap")
         br.append(f"nE:{len(fr['ests'])}")
         br.append(f"nG:{len(fr['gts'])}")
         br.append(f"crit:{fr['crit']['mode']}")
@@ -793,7 +976,11 @@ def generate(rng, tier) -> list:
         frame = "map" if i % 2 else "base_link"
         pool.append((task, frame, POLICIES[i % 3] if rng.random() < 0.5 else rng.choice(POLICIES), _gen_mgr(rng, frame)))
     n = int(os.environ.get("C03_CASES", 0)) or (700 if tier == "quick" else 5000)
-    return [_gen_case(rng, pool, tier) for _ in range(n)]
+    cases = [_gen_case(rng, pool, tier) for _ in range(n)]
+    for k, c in enumerate(cases):  # a third of the cases also run the composed model end to end (no rng consumed)
+        if k % 3 == 0:
+            c["pipe"] = True
+    return cases
 
 
 # =============================================================================== corpus
@@ -852,6 +1039,8 @@ def corpus() -> list:
            "ests": [], "crit": crit30, "pf": pf2}
     for task in ("detection", "fp_validation"):
         cs.append({"kind": "history", "task": task, "frame": "map", "policy": "default", "mgr": mgr, "frames": [frx]})
+    for c in cs:
+        c["pipe"] = True
     return cs
 
 
